@@ -1,6 +1,6 @@
 (* Props/C14.v — property C14: the Item API agrees with SEMI E5 and with the variables API on every value. *)
 From SG Require Import Base.Prelude Base.Kinds Base.Float Gen.VarConsts Gen.ItemConsts Spec.E5 Model.Secs2 Model.Denote Model.Admits Model.Item.
-From SG Require Import Proofs.Secs2Sim Proofs.ItemProofs.
+From SG Require Import Proofs.Secs2Sim Proofs.ItemProofs Base.PyRt Gen.PyVarHdr Gen.PyItemHdr Proofs.PyVarHdrProofs Proofs.PyItemHdrProofs.
 Open Scope N_scope.
 
 (* Both item APIs produce identical bytes for the same typed value (any nesting, any length) ... *)
@@ -48,3 +48,19 @@ Proof.
   cbv zeta. split; [reflexivity|]. split; [|vm_compute; reflexivity].
   eexists. split; [vm_compute; reflexivity|vm_compute; reflexivity].
 Qed.
+
+(* both APIs write and read item headers with code of their own (variables/base.py and item.py).  Both pairs of functions, translated from
+   the source on every run, are the model's functions - and so each other's - for every format code, length and byte string *)
+Theorem C14_header_code_is_model :
+  (forall fc len, (fc < 64)%N -> item_encode_item_header (Z.of_N fc) (Z.of_N len) = item_header fc len) /\
+  (forall data, item_decode_item_header data = do (rest, code, len) <- item_decode_header data; Ok (Z.of_N code, Z.of_N len, rest)) /\
+  (forall fc len, (fc < 64)%N -> item_encode_item_header (Z.of_N fc) (Z.of_N len) = base_encode_item_header (Z.of_N fc) (Z.of_N len)).
+Proof.
+  split; [exact item_encode_item_header_is_model|]. split; [exact item_decode_item_header_is_model|].
+  intros fc len H. rewrite item_encode_item_header_is_model, base_encode_item_header_is_model by exact H. reflexivity.
+Qed.
+Print Assumptions C14_header_code_is_model.
+Example C14_header_code_in_domain :
+  Forall (fun c => (c < 64)%N) ([item_fc_L; item_fc_B; item_fc_BOOLEAN; item_fc_A; item_fc_J] ++ map item_fc all_num_kinds) /\
+  item_encode_item_header 8 256 = Ok [34; 1; 0] /\ item_decode_item_header [34; 1; 0; 5] = Ok (8%Z, 256%Z, [5]).
+Proof. split; [repeat constructor|split]; vm_compute; reflexivity. Qed.
